@@ -3,6 +3,7 @@ package gen
 import (
 	"encoding/binary"
 	"fmt"
+	"math"
 	"sort"
 	"strings"
 )
@@ -16,6 +17,10 @@ const (
 	TRational  = 5
 	TUndefined = 7
 	TSRational = 10
+	TSShort    = 8
+	TSLong     = 9
+	TFloat     = 11
+	TDouble    = 12
 )
 
 var typeSize = map[uint16]int{1: 1, 2: 1, 3: 2, 4: 4, 5: 8, 7: 1, 8: 2, 9: 4, 10: 8, 11: 4, 12: 8}
@@ -31,17 +36,21 @@ var dirName = []string{"ifd0", "exif", "gps"}
 
 // Val is a logical tag value.
 type Val struct {
-	Type uint16
-	Str  string      // ASCII without the terminating NUL
-	Ints []uint32    // BYTE / SHORT / LONG / UNDEFINED
-	Rats [][2]uint32 // RATIONAL / SRATIONAL (two's complement)
+	NoNUL bool // ASCII written without the terminating NUL (count = len)
+	Type  uint16
+	Str   string      // ASCII without the terminating NUL
+	Ints  []uint32    // BYTE / SHORT / LONG / UNDEFINED
+	Rats  [][2]uint32 // RATIONAL / SRATIONAL (two's complement)
 }
 
 func (v Val) count() uint32 {
 	switch v.Type {
 	case TASCII:
+		if v.NoNUL {
+			return uint32(len(v.Str))
+		}
 		return uint32(len(v.Str) + 1)
-	case TRational, TSRational:
+	case TRational, TSRational, TDouble:
 		return uint32(len(v.Rats))
 	}
 	return uint32(len(v.Ints))
@@ -54,17 +63,20 @@ func (v Val) encode(bo binary.ByteOrder) []byte {
 	switch v.Type {
 	case TASCII:
 		out = append([]byte(v.Str), 0)
+		if v.NoNUL {
+			out = []byte(v.Str)
+		}
 	case TByte, TUndefined:
 		for _, i := range v.Ints {
 			out = append(out, byte(i))
 		}
-	case TShort:
+	case TShort, TSShort:
 		for _, i := range v.Ints {
 			var t [2]byte
 			bo.PutUint16(t[:], uint16(i))
 			out = append(out, t[:]...)
 		}
-	case TLong:
+	case TLong, TSLong, TFloat:
 		for _, i := range v.Ints {
 			var t [4]byte
 			bo.PutUint32(t[:], i)
@@ -75,6 +87,12 @@ func (v Val) encode(bo binary.ByteOrder) []byte {
 			var t [8]byte
 			bo.PutUint32(t[:], r[0])
 			bo.PutUint32(t[4:], r[1])
+			out = append(out, t[:]...)
+		}
+	case TDouble:
+		for _, r := range v.Rats {
+			var t [8]byte
+			bo.PutUint64(t[:], uint64(r[0])<<32|uint64(r[1]))
 			out = append(out, t[:]...)
 		}
 	}
@@ -254,6 +272,117 @@ func ChooseRecord(x Chooser, full bool) *Rec {
 		}
 	}
 	return rec
+}
+
+// NShapes is the number of shape transformations ChooseShape knows.
+const NShapes = 12
+
+// ChooseShape re-encodes one field of the record in another legal or
+// near-legal shape (one more value, another integer type, no NUL terminator,
+// float types ...).  It is one costed choice of the field and a free choice of
+// the shape; a shape that does not apply to the field's type changes nothing.
+// Expected values are not defined for these shapes: only relations between
+// encodings of the same record (byte order, container) are judged on them.
+func ChooseShape(x Chooser, rec *Rec) string {
+	c := x.Choose("shape.field", len(rec.Entries)+1)
+	if c == 0 {
+		return ""
+	}
+	e := &rec.Entries[c-1]
+	k := x.All("shape.kind", NShapes)
+	v := e.V
+	isInt := v.Type == TByte || v.Type == TShort || v.Type == TLong
+	maxv := uint32(0)
+	for _, i := range v.Ints {
+		if i > maxv {
+			maxv = i
+		}
+	}
+	switch k {
+	case 0:
+		switch {
+		case len(v.Ints) > 0:
+			v.Ints = append(append([]uint32{}, v.Ints...), v.Ints[len(v.Ints)-1]^1)
+		case len(v.Rats) > 0:
+			v.Rats = append(append([][2]uint32{}, v.Rats...), [2]uint32{v.Rats[0][1], v.Rats[0][0] + 1})
+		case v.Type == TASCII:
+			v.Str += "Z"
+		}
+	case 1:
+		if isInt && maxv < 1<<16 {
+			v.Type = TShort
+		}
+	case 2:
+		if isInt {
+			v.Type = TLong
+		}
+	case 3:
+		if isInt && maxv < 1<<8 {
+			v.Type = TByte
+		}
+	case 4:
+		if isInt && maxv < 1<<15 {
+			v.Type = TSShort
+		}
+	case 5:
+		if isInt && maxv < 1<<31 {
+			v.Type = TSLong
+		}
+	case 6:
+		if v.Type == TRational {
+			v.Type = TSRational
+		} else if v.Type == TSRational {
+			v.Type = TRational
+		}
+	case 7:
+		if v.Type == TASCII && len(v.Str) > 0 {
+			v.NoNUL = true
+		}
+	case 8:
+		if v.Type == TASCII {
+			v.Type = TUndefined
+			v.Ints = nil
+			for _, ch := range []byte(v.Str) {
+				v.Ints = append(v.Ints, uint32(ch))
+			}
+		} else if isInt && maxv < 256 {
+			v.Type = TUndefined
+		}
+	case 9:
+		if isInt {
+			v.Type = TFloat
+			out := make([]uint32, len(v.Ints))
+			for i, u := range v.Ints {
+				out[i] = math.Float32bits(float32(u))
+			}
+			v.Ints = out
+		}
+	case 10:
+		if isInt || len(v.Rats) > 0 {
+			var rr [][2]uint32
+			for _, u := range v.Ints {
+				b := math.Float64bits(float64(u))
+				rr = append(rr, [2]uint32{uint32(b >> 32), uint32(b)})
+			}
+			for _, r := range v.Rats {
+				f := 0.0
+				if r[1] != 0 {
+					f = float64(r[0]) / float64(r[1])
+				}
+				b := math.Float64bits(f)
+				rr = append(rr, [2]uint32{uint32(b >> 32), uint32(b)})
+			}
+			v.Type, v.Ints, v.Rats = TDouble, nil, rr
+		}
+	case 11:
+		if isInt && len(v.Ints) == 1 {
+			v.Ints = []uint32{v.Ints[0], v.Ints[0] ^ 1}
+		} else if len(v.Rats) == 1 {
+			v.Rats = [][2]uint32{v.Rats[0], {v.Rats[0][0] + 1, v.Rats[0][1] + 1}}
+		}
+	}
+	e.V = v
+	return fmt.Sprintf("%s as %s", e.Name, v)
 }
 
 // MinimalRecord is a small fixed record.
@@ -613,17 +742,23 @@ func ReadBack(b []byte, rootDir int) ([]Entry, error) {
 			switch typ {
 			case TASCII:
 				v.Str = strings.TrimSuffix(string(data), "\x00")
+				v.NoNUL = len(data) == 0 || data[len(data)-1] != 0
 			case TByte, TUndefined:
 				for _, c := range data {
 					v.Ints = append(v.Ints, uint32(c))
 				}
-			case TShort:
+			case TShort, TSShort:
 				for k := 0; k < int(cnt); k++ {
 					v.Ints = append(v.Ints, uint32(bo.Uint16(data[2*k:])))
 				}
-			case TLong:
+			case TLong, TSLong, TFloat:
 				for k := 0; k < int(cnt); k++ {
 					v.Ints = append(v.Ints, bo.Uint32(data[4*k:]))
+				}
+			case TDouble:
+				for k := 0; k < int(cnt); k++ {
+					u := bo.Uint64(data[8*k:])
+					v.Rats = append(v.Rats, [2]uint32{uint32(u >> 32), uint32(u)})
 				}
 			case TRational, TSRational:
 				for k := 0; k < int(cnt); k++ {
